@@ -76,6 +76,32 @@ theorem C10_verbatim_delivery {cfg : Cfg} {f : Frame} {c c' : Client} {es : List
     obtain ⟨_, rfl, rfl, rfl⟩ := hl'
     exact sendUdp_ok hs
 
+/-! ## 1b. Which resolver: the remote host's resolv.conf -/
+
+/-- **A `nameserver` line names its address whatever follows it** (trailing comment, extra
+tokens): once the line is cut into words, only the first two matter. -/
+theorem C10_resolvconf_trailing_ignored (addr : Bytes) (rest : List Bytes) :
+    nsOfWords (kwNameserver :: addr :: rest) = some addr := by
+  simp [nsOfWords]
+
+/-- A line with fewer than two words, or another first word, names nothing. -/
+theorem C10_resolvconf_other_lines (w : Bytes) (rest : List Bytes) (h : w ≠ kwNameserver) :
+    nsOfWords (w :: rest) = none ∧ nsOfWords [kwNameserver] = none ∧ nsOfWords [] = none := by
+  refine ⟨?_, rfl, rfl⟩
+  cases rest with
+  | nil => rfl
+  | cons a r => simp [nsOfWords, h]
+
+/-- The text `"# c\nnameserver\t10.0.0.1   # site\r\nNAMESERVER 10.0.0.2 x y\n#nameserver 9.9.9.9\n"`
+yields exactly `10.0.0.1` and `10.0.0.2`. -/
+example : parseResolvConf (bytesOfStr "# c\nnameserver\t10.0.0.1   # site\r\nNAMESERVER 10.0.0.2 x y\n#nameserver 9.9.9.9\n")
+    = [bytesOfStr "10.0.0.1", bytesOfStr "10.0.0.2"] := by decide
+
+/-- Pins: the parsing model was written for this shape of `helpers.resolvconf_nameservers`
+(regenerated from the working tree on every run). -/
+example : Gen.C10.RESOLV_ACCEPT_RULE = ["len(words) >= 2", "words[0] == 'nameserver'", "words[1]"] := by decide
+example : Gen.C10.RESOLV_WORDS_EXPR = "line.lower().split()" := by decide
+
 /-! ## 2. Matched to the asker, at most once — every event sequence, every incoming frame -/
 
 /-- **At most once.** For every configuration and every sequence of client events — captures,
